@@ -7,7 +7,7 @@ def prop(pid, **kw):
 prop("C01",
      level="exploration",
      tests=[dict(name="TestC01", quick=1500, thorough=4000)],
-     rule="rapid-generated KV histories (1-40 steps: write transactions of 1-5 Put/PutWithTimestamp/Delete over 2-3 buckets and a drawn key universe (70% 2-7 keys; 25% 'wide' 8-30 keys and 5% 'bulk' 40-90 keys in one bucket, so that the order-8 B+ trees have several leaves and levels and range bounds fall between leaves; transactions of up to 8/20 calls there), reopen steps, Merge steps (4% of steps; Merge must not change what the model says); values of 0-24 text bytes or 20-60 binary bytes with runs of zeros; about a third of the cases run under the build-tagged VIRTUAL CLOCK (the expiry test sees a time the case controls): explicitly stamped puts expire -2..+9 s around the virtual time and clock steps move it onto, one second before and one second after expiry instants that lie ahead, so reads happen exactly at now = timestamp+TTL and at now = timestamp+TTL-1 and pairs expire between two reads with no write in between; both RAM index modes x RWMode x loading mode x sync x segment size 120..8192) checked after every step against an ordered-map-with-TTL model by a systematic read battery (Get of every key, GetAll, PrefixScan of every key prefix, RangeScan, drawn RangeScan/PrefixSearchScan). A case is non-trivial when at least one segment rotation happened and the history deleted a previously written key or left an expired key next to a live one in the same bucket; distinct = distinct case JSON (hashed).",
+     rule="rapid-generated KV histories (1-40 steps: write transactions of 1-5 Put/PutWithTimestamp/Delete over 2-3 buckets and a drawn key universe (70% 2-7 keys; 25% 'wide' 8-30 keys and 5% 'bulk' 40-90 keys in one bucket, so that the order-8 B+ trees have several leaves and levels and range bounds fall between leaves; transactions of up to 8/20 calls there), reopen steps, Merge steps (4% of steps; Merge must not change what the model says); values of 0-24 text bytes or 20-60 binary bytes with runs of zeros; about a third of the cases run under the build-tagged VIRTUAL CLOCK (the expiry test sees a time the case controls): explicitly stamped puts expire -2..+9 s around the virtual time and clock steps move it onto, one second before and one second after expiry instants that lie ahead, so reads happen exactly at now = timestamp+TTL and at now = timestamp+TTL-1 and pairs expire between two reads with no write in between; both RAM index modes x RWMode x loading mode x sync x segment size 120..8192) checked after every step against an ordered-map-with-TTL model by a systematic read battery (Get of every key, GetAll, PrefixScan of every key prefix, RangeScan, drawn RangeScan/PrefixSearchScan). A case is non-trivial when at least one segment rotation happened and the history deleted a previously written key or left an expired key next to a live one in the same bucket; distinct = distinct case JSON (hashed). One case in eight is a TREE-SHAPE case: 20-70 keys of one bucket are inserted in a structured order (jump-and-backfill from one or both ends of the sorted universe, or new extreme keys alternating with blocks of refills next to an anchor key, with a rhythm of 3 refills that fills a freshly split 7-key leaf exactly), then a short ordinary history follows; the battery runs after every step.",
      assumptions=["without the virtual clock expiry instants are at least 10^6 s away from the wall clock (valid until 2033); with it only the expiry test (record.go IsExpired) reads the virtual time, records stamped by Put carry the wall clock and never expire in such a case",
                   "the reference model (model_test.go) is correct"])
 
@@ -15,7 +15,7 @@ prop("C05",
      level="exploration", engine="E1+E2",
      tests=[dict(name="TestC05Enum", quick=1, thorough=1, shardable=False),
             dict(name="TestC05", quick=1200, thorough=4000)],
-     rule="(E2) exhaustive: every ds/list state of <=4 (thorough: <=5) elements over the values {\"\",a,|,a|b} x every operation instance (push/pop/peek/size, LRange/LTrim with both bounds in -n-2..n+1, LRem/LSet with every count/index in that range and every value), result AND resulting list compared with the Redis-style model through tolerant outcome sets; (E1) rapid histories of 1-60 single-call transactions on 1-3 list keys in 1-2 buckets with reopen steps, every call compared with the model and LRange(0,-1)/LSize/LPeek/RPeek re-read after every step. Non-trivial: applied to a non-empty list with a negative or out-of-range index/count or a value containing '|'.",
+     rule="(E2) exhaustive: every ds/list state of <=4 (thorough: <=5) elements over the values {\"\",a,|,a|b} x every operation instance (push/pop/peek/size, LRange/LTrim with both bounds in -n-2..n+1, LRem/LSet with every count/index in that range and every value), result AND resulting list compared with the Redis-style model through tolerant outcome sets; (E1) rapid histories of 1-60 single-call transactions on 1-3 list keys in 1-2 buckets with reopen steps, every call compared with the model and LRange(0,-1)/LSize/LPeek/RPeek re-read after every step. Non-trivial: applied to a non-empty list with a negative or out-of-range index/count or a value containing '|'. (E2) also: LRange/LTrim/LSet/LRem on the exported list type with indexes and counts math.MinInt64, MinInt64+1, MaxInt64, MinInt32, MaxInt32 on every state.",
      assumptions=["out-of-range bounds may be clamped (Redis) or reported as an error with the list unchanged; both are accepted, panics are not",
                   "list keys do not contain '|' (the API rejects them)"],
      technique="small-scope exhaustive enumeration + model-based property testing (rapid)")
@@ -33,7 +33,7 @@ prop("C07",
      level="exploration", engine="E1+E2",
      tests=[dict(name="TestC07Enum", quick=2, thorough=4, timeout_quick=900),
             dict(name="TestC07", quick=1500, thorough=4000)],
-     rule="(E2) exhaustive: every sorted set over member keys {\"\",a,b,c} each absent or scored in {-1,0,1,2} (625 states) x several skiplist layouts (math/rand seeds, insertion orders, re-scored members) x every operation instance (Put with every key/score, Remove, pops, peeks, GetByScoreRange with every bound pair in -2..3 x exclusive flags x limits 0..2 and nil options, GetByRankRange with every rank pair in -6..6 with and without removal, FindRank/FindRevRank/GetByKey); result, resulting membership, dict/rank-walk/size agreement and FindRank/GetByRank of every member checked against a (score,key)-ordered model; (E1) rapid histories of 1-50 single-call transactions through every Tx sorted-set API with reopen steps. Non-trivial: at least two members share a score, or the empty key is a member, or a reversed range lies below every score.",
+     rule="(E2) exhaustive: every sorted set over member keys {\"\",a,b,c} each absent or scored in {-1,0,1,2} (625 states) x several skiplist layouts (math/rand seeds, insertion orders, re-scored members) x every operation instance (Put with every key/score, Remove, pops, peeks, GetByScoreRange with every bound pair in -2..3 x exclusive flags x limits 0..2 and nil options, GetByRankRange with every rank pair in -6..6 with and without removal, FindRank/FindRevRank/GetByKey); result, resulting membership, dict/rank-walk/size agreement and FindRank/GetByRank of every member checked against a (score,key)-ordered model; (E1) rapid histories of 1-50 single-call transactions through every Tx sorted-set API with reopen steps. Non-trivial: at least two members share a score, or the empty key is a member, or a reversed range lies below every score. Scores of the rapid histories include values that need more than six decimals (1/3, 1e-7, -1e-7, 0.3333331 vs 0.3333334, 1234567.1234567).",
      assumptions=["rank 0 and ranks beyond the size are unspecified: queries must still return only current members in rank order, mutating calls use in-domain ranks",
                   "known finding c07-zrem-empty-key is applied as a named model deviation"],
      technique="small-scope exhaustive enumeration + model-based property testing (rapid)")
@@ -41,27 +41,27 @@ prop("C07",
 prop("C02",
      level="exploration",
      tests=[dict(name="TestC02", quick=400, thorough=1200)],
-     rule="rapid-generated single-bucket KV histories in HintBPTSparseIdxMode (1-25 steps, up to 60 with 1 KiB segments; a third of the cases under the virtual clock with clock steps onto / around expiry instants as in C01; write transactions of 1-4 (wide key universes of 8-30 keys, 25% of cases: 1-8) Put/PutWithTimestamp/Delete incl. exact-fill records; reopen 20% of steps; segment sizes 120/200/333 so most keys live in sealed segments; FileIO/MMap x loading mode x sync), checked after every step against the ordered-map-with-TTL model: Get of every key, GetAll, PrefixScan(p,0,ScanNoLimit) of every key prefix, RangeScan over drawn straddling bounds, including reads before the first write. Non-trivial: >=1 rotation and a deleted/expired key next to live keys.",
+     rule="rapid-generated single-bucket KV histories in HintBPTSparseIdxMode (1-25 steps, up to 60 with 1 KiB segments; a third of the cases under the virtual clock with clock steps onto / around expiry instants as in C01; write transactions of 1-4 (wide key universes of 8-30 keys, 25% of cases: 1-8) Put/PutWithTimestamp/Delete incl. exact-fill records; reopen 20% of steps; segment sizes 120/200/333 so most keys live in sealed segments; FileIO/MMap x loading mode x sync), checked after every step against the ordered-map-with-TTL model: Get of every key, GetAll, PrefixScan(p,0,ScanNoLimit) of every key prefix, RangeScan over drawn straddling bounds, including reads before the first write. Non-trivial: >=1 rotation and a deleted/expired key next to live keys. One case in twelve is a tree-shape case (C01) in one 8 KiB segment; bucket names include dotted ones (b.k, c.meta: the name travels through a file name).",
      assumptions=["single bucket, so bucket+key concatenations are unambiguous (the ambiguous case is C04)"])
 
 prop("C04",
      level="exploration",
      tests=[dict(name="TestC04", quick=1500, thorough=4000)],
-     rule="rapid-generated histories over 2-3 buckets drawn from adversarial names {b, bb, b|, \"\", ab, a} (prefixes of each other, empty), KV in all three index modes, lists/sets/sorted sets in KeyVal mode, one call per transaction for lists/sets/sorted sets, and a third of the steps one transaction of 2-5 key/value writes spread over the buckets (so one transaction writes pairs whose bucket+key concatenations coincide), reopen steps. Oracle A (metamorphic): after every write transaction the full observation of every (structure,bucket) it does not name is unchanged; oracle B: the reference model with per-bucket maps. Non-trivial: >=2 buckets where one name is a prefix of another.",
+     rule="rapid-generated histories over 2-3 buckets drawn from adversarial names {b, bb, b|, \"\", ab, a} (prefixes of each other, empty), KV in all three index modes, lists/sets/sorted sets in KeyVal mode, one call per transaction for lists/sets/sorted sets, and a third of the steps one transaction of 2-5 key/value writes spread over the buckets (so one transaction writes pairs whose bucket+key concatenations coincide), reopen steps. Oracle A (metamorphic): after every write transaction the full observation of every (structure,bucket) it does not name is unchanged; oracle B: the reference model with per-bucket maps. Non-trivial: >=2 buckets where one name is a prefix of another. Bucket names also include dotted ones (a.b, b.meta).",
      assumptions=["known finding c04-sparse-bucket-key-concatenation: sparse-mode histories whose bucket names are prefix-related run in KeyOnly mode instead (counted under excluded)"],
      technique="metamorphic + model-based property testing (rapid)")
 
 prop("C08",
      level="exploration",
      tests=[dict(name="TestC08", quick=1200, thorough=3000)],
-     rule="rapid-generated histories mixing KV (all index modes) and list/set/sorted-set calls (KeyVal mode) in transactions of 1-4 calls (reads and writes, so calls that are valid when made but no-ops at commit occur: second pop of a one-element list, LSet/LTrim/LRem after a pop, SRem of a missing key), exact-fill records, Close/Open at drawn points and at the end. Also generated: two-step patterns on a fresh list (push n; then one transaction that pops p elements and calls LSet/LTrim/LRem/pop with arguments valid when called but referring to elements that are gone when applied). Oracle (metamorphic, model-free, STRICT: error, empty and zero results are distinct; includes SHasKey and the expiry instant of every live pair): the full observation of every bucket and structure just before Close equals the one just after Open. Non-trivial: a reopen preceded by a committed transaction that touches >=2 structures, contains SMove/SPop, or mutates the same list twice.",
+     rule="rapid-generated histories mixing KV (all index modes) and list/set/sorted-set calls (KeyVal mode) in transactions of 1-4 calls (reads and writes, so calls that are valid when made but no-ops at commit occur: second pop of a one-element list, LSet/LTrim/LRem after a pop, SRem of a missing key), exact-fill records, Close/Open at drawn points and at the end. Also generated: two-step patterns on a fresh list (push n; then one transaction that pops p elements and calls LSet/LTrim/LRem/pop with arguments valid when called but referring to elements that are gone when applied). Oracle (metamorphic, model-free, STRICT: error, empty and zero results are distinct; includes SHasKey and the expiry instant of every live pair): the full observation of every bucket and structure just before Close equals the one just after Open. Non-trivial: a reopen preceded by a committed transaction that touches >=2 structures, contains SMove/SPop, or mutates the same list twice. A fifth of the cases run under the virtual clock (C01): pairs expire between the writes and the reopen.",
      assumptions=["histories in which a call panics are skipped (C20's domain) and counted"],
      technique="metamorphic property testing (rapid)")
 
 prop("C19",
      level="exploration",
      tests=[dict(name="TestC19", quick=350, thorough=800)],
-     rule="each rapid-generated mixed history (KV + list/set/sorted-set calls, reads inside transactions, reopen steps, exact-fill records, segment sizes 120-1024) is executed under all 8 combinations RWMode x StartFileLoadingMode x SyncEnable in KeyVal mode, and its KV part under KeyVal (reference), KeyOnly x 8 and sparse x 8 combinations; per-call results, commit outcomes and the observation after every step are compared across configurations (differential). Non-trivial: history with >=1 rotation and >=1 reopen.",
+     rule="each rapid-generated mixed history (KV + list/set/sorted-set calls, reads inside transactions, reopen steps, exact-fill records, segment sizes 120-1024) is executed under all 8 combinations RWMode x StartFileLoadingMode x SyncEnable in KeyVal mode, and its KV part under KeyVal (reference), KeyOnly x 8 and sparse x 8 combinations; per-call results, commit outcomes and the observation after every step are compared across configurations (differential). Non-trivial: history with >=1 rotation and >=1 reopen. A fifth of the histories run under the virtual clock (C01), the same instants in every configuration.",
      assumptions=["SPop is not generated (it may return any member, so two runs may legitimately diverge)",
                   "known finding c04-sparse-bucket-key-concatenation: sparse configurations are skipped for histories with prefix-related bucket names (counted)"],
      technique="differential property testing across option sets (rapid)")
@@ -76,7 +76,7 @@ CRASH_ASSUMPTIONS = [
 prop("C09",
      level="fault_enumeration", engine="E1+E3",
      tests=[dict(name="TestC09", quick=250, thorough=700)],
-     rule="rapid-generated histories (KV in all index modes, lists/sets/sorted sets in KeyVal mode, reads inside transactions so commit-time no-ops occur, reads of a never-written bucket through every read API, exact-fill records, Merge calls, reopen steps, every RWMode/StartFileLoadingMode/sync/segment size 120..1024). Oracle: (i) Open with the same options succeeds after the clean Close; (ii) for RAM index modes every crash image of the recorded file-mutation trace (every event position x torn prefixes of every write at each record-field boundary) is materialised and Open must succeed on it and a full read must not panic; every 3rd torn image and every 4th other image is then CONTINUED: one more put (1 byte / 60% of a segment / a whole segment, so the log rotates past whatever the crash left at the tail), Close, Open again - which must succeed and show the recovered contents plus the new pair. Non-trivial: a workload with more than 3 distinct crash images; inner_enumerations counts the images opened.",
+     rule="rapid-generated histories (KV in all index modes, lists/sets/sorted sets in KeyVal mode, reads inside transactions so commit-time no-ops occur, reads of a never-written bucket through every read API, exact-fill records, Merge calls, reopen steps, every RWMode/StartFileLoadingMode/sync/segment size 120..1024). Oracle: (i) Open with the same options succeeds after the clean Close; (ii) for RAM index modes every crash image of the recorded file-mutation trace (every event position x torn prefixes of every write at each record-field boundary) is materialised and Open must succeed on it and a full read must not panic; every 3rd torn image and every 4th other image is then CONTINUED: one more put (1 byte / 60% of a segment / a whole segment, so the log rotates past whatever the crash left at the tail), Close, Open again - which must succeed and show the recovered contents plus the new pair. Non-trivial: a workload with more than 3 distinct crash images; inner_enumerations counts the images opened. In the RAM index modes 10% of the multi-call transactions get an injected write error inside Commit (failed calls are part of the property's histories); every database directory of every check carries glob metacharacters and a space in its name.",
      assumptions=CRASH_ASSUMPTIONS,
      technique="record-and-replay crash-point enumeration over rapid-generated workloads")
 
@@ -97,7 +97,7 @@ prop("C16",
 prop("C15",
      level="exploration",
      tests=[dict(name="TestC15", quick=800, thorough=4000)],
-     rule="rapid-generated histories (KV with TTL/deletes/overwrites, sets, sorted sets, rollbacks, and commits that fail with an injected write error at record 0-3 (both twins get the same fault; the records written before it stay on disk, uncommitted); transactions of 1-4 (wide key universes: 1-8) calls; both RAM index modes; segment sizes 120-333) with Merge at drawn points (18% of steps, so twice in a row and failing '<2 files' merges occur), more writes afterwards and reopen steps incl. a final one. Oracle (differential twin): database A runs the history, database B the same history without the Merge calls; per-call results and the full observation (incl. the expiry instant of every live pair) must be identical after every step. Non-trivial: >=1 successful Merge over >=2 segments in a history that deleted, overwrote, expired or rolled back something.",
+     rule="rapid-generated histories (KV with TTL/deletes/overwrites, sets, sorted sets, rollbacks, and commits that fail with an injected write error at record 0-3 (both twins get the same fault; the records written before it stay on disk, uncommitted); transactions of 1-4 (wide key universes: 1-8) calls; both RAM index modes; segment sizes 120-333) with Merge at drawn points (18% of steps, so twice in a row and failing '<2 files' merges occur), more writes afterwards and reopen steps incl. a final one. Oracle (differential twin): database A runs the history, database B the same history without the Merge calls; per-call results and the full observation (incl. the expiry instant of every live pair) must be identical after every step. Non-trivial: >=1 successful Merge over >=2 segments in a history that deleted, overwrote, expired or rolled back something. A quarter of the cases run under the virtual clock (C01) in both twins: pairs expire between the writes, the Merge calls and the comparisons.",
      assumptions=["SPop is not generated (non-deterministic by specification)",
                   "known finding c15-merge-list-duplication: list calls are dropped from the histories (counted under excluded)"],
      technique="differential twin-database property testing (rapid)")
@@ -113,7 +113,7 @@ prop("C11",
 prop("C12",
      level="fault_enumeration", engine="E1+E3",
      tests=[dict(name="TestC12", quick=400, thorough=1500)],
-     rule="rapid-generated mixed histories (<=8 steps, KV in all index modes, structures in KeyVal mode) with one 'bad' transaction of 1-4 state-changing calls inserted at a drawn position, of a drawn kind: function returns an error after k calls (db.Update), explicit Rollback, an oversized entry at a drawn position, an injected write error at EVERY write event of its Commit in turn (each with 0, 7, 43 and all-but-the-last byte written before the error), an injected sync error at every sync event in turn, a read-only transaction calling every mutating API, or calls of every mutating API on the transaction after Commit/Rollback. 8% of the other steps are Merge calls on every database (what the bad transaction left in the segments must not be brought to life). The bad transaction prefers the keys the history uses and may contain SPop (except for sync faults); after a failed db.Update/db.View the database lock is probed (a write transaction must be able to begin: otherwise DEADLOCK). The bad transaction runs on the main database only; a twin runs the history without it; per-call results and the full observation of main and twin must agree after every step, in the process and after reopen; mutating calls in read-only/finished transactions must return errors; after a sync error the state must equal the twin without the transaction or a second twin that committed it. Non-trivial: the bad transaction contains at least one call that would change the observation (and, for fault kinds, at least one fault plan fired).",
+     rule="rapid-generated mixed histories (<=8 steps, KV in all index modes, structures in KeyVal mode) with one 'bad' transaction of 1-4 state-changing calls inserted at a drawn position, of a drawn kind: function returns an error after k calls (db.Update), explicit Rollback, an oversized entry at a drawn position, an injected write error at EVERY write event of its Commit in turn (each with 0, 7, 43 and all-but-the-last byte written before the error), an injected sync error at every sync event in turn, a read-only transaction calling every mutating API, or calls of every mutating API on the transaction after Commit/Rollback. 8% of the other steps are Merge calls on every database (what the bad transaction left in the segments must not be brought to life). The bad transaction prefers the keys the history uses and may contain SPop (except for sync faults); after a failed db.Update/db.View the database lock is probed (a write transaction must be able to begin: otherwise DEADLOCK). The bad transaction runs on the main database only; a twin runs the history without it; per-call results and the full observation of main and twin must agree after every step, in the process and after reopen; mutating calls in read-only/finished transactions must return errors; after a sync error the state must equal the twin without the transaction or a second twin that committed it. Non-trivial: the bad transaction contains at least one call that would change the observation (and, for fault kinds, at least one fault plan fired). After a transaction with an injected write or sync error half of the cases continue with an ECHO transaction: a prefix of the failed transaction's calls with records of exactly the same sizes but other keys and values, so the new records end on record boundaries of the failed ones.",
      assumptions=["a failed write leaves the record physically incomplete (if the omitted suffix is all zero bytes the torn prefix is shortened, because the zero-filled segment would already hold the complete record)",
                   "known finding sparse-index-files-not-crash-consistent: I/O-fault cases run in KeyOnly instead of sparse mode (counted under excluded)",
                   "known finding c15-merge-list-duplication: histories with Merge steps run without their list calls (counted under excluded)"],
@@ -149,14 +149,14 @@ CONC_ASSUMPTIONS = [
 prop("C14",
      level="exploration", engine="E4", race=True,
      tests=[dict(name="TestC14", quick=600, thorough=2000)],
-     rule="rapid-generated concurrent programs: 2-16 goroutines (at least one writer and one reader) x 1-6 transactions each on 1-2 databases open in the same process, all three index modes x RWMode x loading mode x sync x segment size 400/2000/8192, db.Update/db.View and manual Begin/Commit styles, a drawn yield plan (runtime.Gosched at every n-th file-mutation hook call and between the two passes of a reader). Version-stamped workload: a writer reads key ver=v, writes ver=v+1 and 1-3 drawn keys stamped v+1 (plus list/set/sorted-set appends in KeyVal mode); every writer also re-scores one sorted-set member to its version; 1 in 7 write transactions must fail (the function returns an error, or an entry larger than a segment makes Commit fail) and must leave no trace; a reader reads ver, the keys, RangeScan, PrefixScan, PrefixSearchScan with its own regular expression, the list, the set and the re-scored member, twice. 1 in 8 RAM-mode programs run on a database that was merged once before the goroutines start. Oracle: committed writers carry exactly the versions 1..W, consistent with real time; every reader observes exactly the state after one version v inside its real-time window and both passes agree; the final state equals the serial replay; the binary is built with -race and every race report with a nutsdb frame is a violation; deadlock watchdog. Non-trivial: >=2 pairs of transactions on the same database overlapped in real time.",
+     rule="rapid-generated concurrent programs: 2-16 goroutines (at least one writer and one reader) x 1-6 transactions each on 1-2 databases open in the same process, all three index modes x RWMode x loading mode x sync x segment size 400/2000/8192, db.Update/db.View and manual Begin/Commit styles, a drawn yield plan (runtime.Gosched at every n-th file-mutation hook call and between the two passes of a reader). Version-stamped workload: a writer reads key ver=v, writes ver=v+1 and 1-3 drawn keys stamped v+1 (plus list/set/sorted-set appends in KeyVal mode); every writer also re-scores one sorted-set member to its version; 1 in 7 write transactions must fail (the function returns an error, or an entry larger than a segment makes Commit fail) and must leave no trace; a reader reads ver, the keys, RangeScan, PrefixScan, PrefixSearchScan with its own regular expression, the list, the set and the re-scored member, twice. 1 in 8 RAM-mode programs run on a database that was merged once before the goroutines start. Oracle: committed writers carry exactly the versions 1..W, consistent with real time; every reader observes exactly the state after one version v inside its real-time window and both passes agree; the final state equals the serial replay; the binary is built with -race and every race report with a nutsdb frame is a violation; deadlock watchdog. Non-trivial: >=2 pairs of transactions on the same database overlapped in real time. A quarter of the programs run on a FRESH handle: two segments are written, the database is closed and opened again, and the goroutines run the very first transactions of the new handle concurrently.",
      assumptions=CONC_ASSUMPTIONS,
      technique="randomized concurrent histories (rapid-generated programs and yield plans) under the race detector with an exact strict-serializability oracle")
 
 prop("C17",
      level="exploration", engine="E4", race=True,
      tests=[dict(name="TestC17", quick=500, thorough=2000)],
-     rule="rapid-generated concurrent programs as in C14 (2-8 worker goroutines x 1-6 version-stamped transactions, RAM index modes, segment sizes 300/400/1000 so that several segments exist) plus one goroutine that calls DB.Merge 1-4 times, each call released after a drawn amount of transaction progress; drawn yield plan. Oracle: every Merge returns nil or the 'at least 2 files' error; the strict-serializability oracle of C14 over all transactions (versions 1..W, snapshot readers inside their real-time window, both passes equal, scans and set membership agree with the version), final state = serial replay; -race build, every report with a nutsdb frame is a violation; deadlock watchdog. Non-trivial: a Merge that returned nil (it rewrote/removed segments) and overlapped at least one transaction in real time.",
+     rule="rapid-generated concurrent programs as in C14 (2-8 worker goroutines x 1-6 version-stamped transactions, RAM index modes, segment sizes 300/400/1000 so that several segments exist) plus one goroutine that calls DB.Merge 1-4 times, each call released after a drawn amount of transaction progress; drawn yield plan. Oracle: every Merge returns nil or the 'at least 2 files' error; the strict-serializability oracle of C14 over all transactions (versions 1..W, snapshot readers inside their real-time window, both passes equal, scans and set membership agree with the version), final state = serial replay; -race build, every report with a nutsdb frame is a violation; deadlock watchdog. Non-trivial: a Merge that returned nil (it rewrote/removed segments) and overlapped at least one transaction in real time. A quarter of the programs run on a fresh handle (C14), so Merge can be among the first operations of a handle.",
      assumptions=CONC_ASSUMPTIONS + ["known finding c15-merge-list-duplication (Merge duplicates list elements even without concurrency): the writers' list append is dropped, the set and sorted-set appends stay (counted under excluded)"],
      technique="randomized concurrent histories with Merge under the race detector, strict-serializability oracle")
 
@@ -189,7 +189,7 @@ prop("C21",
             dict(name="FuzzRootIdxImage", tier="thorough", fuzz=True, thorough=60, minimize="5s"),
             dict(name="FuzzBucketMetaImage", tier="thorough", fuzz=True, thorough=60, minimize="5s"),
             dict(name="FuzzRecordFlips", tier="thorough", fuzz=True, thorough=120, minimize="20x")],
-     rule="rapid-generated records of the three stored formats - data entries (bucket, key, value of 0-12 bytes over {00,01,a,b,|,7f,80,ff} or 255/256/300 bytes; timestamp, TTL, tx id, file id, offset from edge values up to MaxUint64; all flag/status/structure codes incl. 0xffff), sparse root-index records and bucket metadata - encoded by the library (Entry.Encode, BPTreeRootIdx.Encode, BucketMeta.Encode), stored in a file followed by nothing, zeros, 0xff bytes or a second copy, and read back through DataFile.ReadAt with BOTH RWManagers, ReadBPTreeRootIdxAt and ReadBucketMeta. Oracle: (round-trip) the decoded fields equal the written ones exactly (the all-zero image may read as 'no record'); (corruption) for EVERY single-bit flip of the stored record and EVERY truncation of it (tail zero-filled as a torn write in a pre-sized segment leaves it, and file cut short) the reader returns an error, or 'no record', or a record equal to the written one in every field - anything else is corrupted data served as data. Flips of the top byte of a size field make the reader allocate 16 MiB-2 GiB and are enumerated for 1 case in 60 (drawn; counted under size-field-top-byte-flips-skipped otherwise). API-level variant (TestC21API): a generated key/value history is written through transactions in all three index modes and closed; one stored record is damaged (one bit flipped at a drawn position of the written region of a data segment - in sparse mode also of a root-index or bucket-meta file -, or the file cut short / its tail zeroed at a drawn byte); the directory is opened again: Open fails, or every pair any read returns (Get of every key, GetAll, PrefixScan, RangeScan) was written by the history to that bucket under that key. Image fuzzers (quick: seeds + committed corpus; thorough: coverage-guided campaigns): arbitrary bytes as a stored image - the reader returns an error, no record, or a record that re-encodes to exactly the stored bytes; both RWManagers agree. Non-trivial: record with a non-empty bucket, key or value (API variant: the damaged database opened and served data); inner_enumerations counts the images read.",
+     rule="rapid-generated records of the three stored formats - data entries (bucket, key, value of 0-12 bytes over {00,01,a,b,|,7f,80,ff} or 255/256/300 bytes; timestamp, TTL, tx id, file id, offset from edge values up to MaxUint64; all flag/status/structure codes incl. 0xffff), sparse root-index records and bucket metadata - encoded by the library (Entry.Encode, BPTreeRootIdx.Encode, BucketMeta.Encode), stored in a file followed by nothing, zeros, 0xff bytes or a second copy, and read back through DataFile.ReadAt with BOTH RWManagers, ReadBPTreeRootIdxAt and ReadBucketMeta. Oracle: (round-trip) the decoded fields equal the written ones exactly (the all-zero image may read as 'no record'); (corruption) for EVERY single-bit flip of the stored record and EVERY truncation of it (tail zero-filled as a torn write in a pre-sized segment leaves it, and file cut short) the reader returns an error, or 'no record', or a record equal to the written one in every field - anything else is corrupted data served as data. Flips of the top byte of a size field make the reader allocate 16 MiB-2 GiB and are enumerated for 1 case in 60 (drawn; counted under size-field-top-byte-flips-skipped otherwise). API-level variant (TestC21API): a generated key/value history is written through transactions in all three index modes and closed; one stored record is damaged (one bit flipped at a drawn position of the written region of a data segment - in sparse mode also of a root-index or bucket-meta file -, or the file cut short / its tail zeroed at a drawn byte); the directory is opened again: Open fails, or every pair any read returns (Get of every key, GetAll, PrefixScan, RangeScan) was written by the history to that bucket under that key. Image fuzzers (quick: seeds + committed corpus; thorough: coverage-guided campaigns): arbitrary bytes as a stored image - the reader returns an error, no record, or a record that re-encodes to exactly the stored bytes; both RWManagers agree. Non-trivial: record with a non-empty bucket, key or value (API variant: the damaged database opened and served data); inner_enumerations counts the images read. 3 in 16 records are nearly blank (empty key and value and timestamp 0, optionally every other field zero too), where a single field distinguishes the record from an unwritten slot.",
      assumptions=["a reader panic on an absurd size (makeslice) counts as 'not served' here",
                   "CRC32 collisions under multi-bit corruption are outside the single-bit/truncation fault model; the image fuzzers skip inputs whose declared field sizes exceed 1 MiB (the reader would allocate up to 3 x 4 GiB)"],
      technique="round-trip property testing (rapid) with exhaustive single-bit-flip and truncation enumeration per generated record; API-level corruption histories; native Go fuzzing of the decoders", engine="E1+E5")
